@@ -634,5 +634,26 @@ pub fn corpus() -> Vec<Case> {
         ops.extend([push(2), push(last_dir), REP]);
         v.push(Case { family: "limits", ops, limit: 20_000, ..Default::default() });
     }
+    // boundary sweep of every index / range operand over a three-word stack, memory and parent memory: every position from
+    // one below the start to two past the end, and every length from -1 to one more than fits
+    {
+        let one = |stack: Vec<Word>, memory: Vec<Word>, parent: Option<Vec<Word>>, op: &Op| Case { family: "single", stack, memory, parent, ops: vec![op.clone()], ..Default::default() };
+        let (m, pm) = (vec![10, 20, 30], Some(vec![40, 50, 60]));
+        for a in -1..=5i64 {
+            for op in [LOD, FREE, ALOC] { v.push(one(vec![7, a], m.clone(), None, &op)); }
+            v.push(one(vec![7, 99, a], m.clone(), None, &STO));
+            v.push(one(vec![7, a], vec![], pm.clone(), &LODP));
+            for op in [DUPF, SWAPI, DROP, LODS] { v.push(one(vec![1, 2, 3, a], vec![], None, &op)); }
+            v.push(one(vec![1, 2, 3, 99, a], vec![], None, &STOS));
+            v.push(one(vec![1, a], vec![], None, &RES));
+            for n in -1..=5i64 {
+                v.push(one(vec![7, a, n], m.clone(), None, &LODR));
+                v.push(one(vec![7, a, n], vec![], pm.clone(), &LODPR));
+            }
+            for k in 0..=2i64 { for dk in -1..=1i64 { let mut st: Vec<Word> = vec![7]; st.extend((0..k).map(|x| 90 + x)); st.extend([k + dk, a]); v.push(one(st, m.clone(), None, &STOR)); } }
+        }
+        for cond in -1..=2i64 { v.push(one(vec![5, 6, cond], vec![], None, &SEL)); }
+        for len in -1..=3i64 { for cond in -1..=2i64 { v.push(one(vec![1, 2, 3, 4, len, cond], vec![], None, &SLTR)); } v.push(one(vec![1, 2, 1, 2, len], vec![], None, &EQRA)); v.push(one(vec![1, 2, 1, 3, len], vec![], None, &EQRA)); }
+    }
     v
 }
